@@ -42,7 +42,9 @@ func (e *Env) RLocality() {
 	// field-write inventory of FileRestorer in the render path
 	pkg := e.Prog.Pkg(load.PkgDecorator)
 	info := pkg.TypesInfo
-	allowed := map[string]bool{"cursor": true, "cursorAtNewLine": true, "lines": true, "comments": true, "nodeDecl": true, "nodeData": true}
+	// (rawLiteralEnd: a position marker like cursorAtNewLine — the cursor right after a raw string
+	// literal that spans lines, compared with the cursor only)
+	allowed := map[string]bool{"cursor": true, "cursorAtNewLine": true, "rawLiteralEnd": true, "lines": true, "comments": true, "nodeDecl": true, "nodeData": true}
 	written := map[string]bool{}
 	for _, fd := range load.AllFuncDecls(pkg) {
 		if fd.Body == nil || !isRestorePath(fd) {
